@@ -221,6 +221,38 @@ Proof.
     + rewrite B2, R2. unfold right_interval. cbn [fst snd]. rewrite <- U1, I1. ring.
 Qed.
 
+(* the left user bounds after k generated run_multiscale callbacks are, term for term, k applications of
+   Model.Multiscale.scale_interval *)
+Lemma gen_msc_iter_left sf g k : forall s,
+  (ms_dmin_user (gen_msc_iter sf g k s), ms_dmax_user (gen_msc_iter sf g k s))
+  = iter_scale sf k (ms_dmin_user s, ms_dmax_user s).
+Proof.
+  induction k as [|k IH]; intros s; [reflexivity|].
+  cbn [gen_msc_iter iter_scale]. rewrite IH. f_equal. destruct g; reflexivity.
+Qed.
+
+(* the grids of every finer level in the model of the whole run (Model.Multiscale.run_grids, the object of
+   C15_finer_interval) are next_grids applied to the very bounds the generated run_multiscale hands to
+   disparity_range at its (i+1)-th execution *)
+Theorem gen_finer_grids_user ib marge sf dmin dmax H W n wr lvls i l :
+  nth_error lvls i = Some l ->
+  exists u gr, ms_range_left (gen_msc_iter sf true (S i) (gen_after_prepare n sf dmin dmax)) = Some u /\
+    nth_error (run_grids ib marge sf dmin dmax H W n wr lvls) (S i)
+    = Some (GMap (next_grids ib (lv_ws l) marge sf (fst (lv_left l)) (snd (lv_left l)) (fst u) (snd u)
+                             (fst (lv_zoom l)) (snd (lv_zoom l))), gr).
+Proof.
+  intros Hl. set (t := gen_msc_iter sf true (S i) (gen_after_prepare n sf dmin dmax)).
+  exists (ms_dmin_user t, ms_dmax_user t).
+  destruct (gen_msc_iter_val sf (S i) (gen_after_prepare n sf dmin dmax)) as (_ & _ & _ & D).
+  destruct (D ltac:(lia)) as [D1 _]. fold t in D1.
+  unfold run_grids. cbn [nth_error].
+  rewrite (finer_grids_nth ib marge sf lvls _ i l Hl). cbv zeta.
+  pose proof (gen_msc_iter_left sf true (S i) (gen_after_prepare n sf dmin dmax)) as E. fold t in E.
+  change (ms_dmin_user (gen_after_prepare n sf dmin dmax), ms_dmax_user (gen_after_prepare n sf dmin dmax))
+    with (run_prepare_interval dmin dmax sf n) in E.
+  rewrite <- E. eexists. split; [exact D1 | reflexivity].
+Qed.
+
 (* ====================================================================== part 3: C08 on the generated functions *)
 
 (* the content of the sixteen slots after the generated run_prepare.  Values: a rational (an interval bound at
